@@ -395,6 +395,8 @@ struct Ctx<'a> {
     kills: u64,
     e0: i64,
     len: usize,
+    idle_run: Option<(usize, u64, Vec<String>)>,
+    real_steps: u64,
 }
 
 impl<'a> Ctx<'a> {
@@ -417,7 +419,9 @@ impl<'a> Ctx<'a> {
     fn push_step(&mut self, op: String, code: u32, log: &[(u64, i64, bool)]) -> Snap {
         let s = snapshot(&self.w);
         let o = obs(&s, code, self.epoch(), log);
-        self.steps.push((op, o));
+        self.steps.push((format!("X ({})", op), o));
+        self.idle_run = None;
+        self.real_steps += 1;
         for p in self.w.v.panics.borrow_mut().drain(..) {
             self.stats.panics.push(p);
         }
@@ -852,7 +856,9 @@ impl<'a> Ctx<'a> {
         let pre = self.snap.clone();
         self.w.v.take_invocations();
         self.w.v.fail_plan.replace(inject);
+        let t0 = std::time::Instant::now();
         let res = exec::<()>(&self.w.v, &SYSTEM_ACTOR_ADDR, &CRON_ACTOR_ADDR, &TokenAmount::zero(), CronMethod::EpochTick as u64, None);
+        self.bump("usec_in_tick_exec", t0.elapsed().as_micros() as u64);
         self.w.v.fail_plan.replace(None);
         let t = self.w.v.take_invocations().pop().unwrap();
         let c = code(&res);
@@ -861,7 +867,9 @@ impl<'a> Ctx<'a> {
             self.fail("cron-tick-failed", format!("EpochTick at {} returned exit code {}", e, c));
         }
         self.w.v.set_epoch(e + 1);
+        let t1 = std::time::Instant::now();
         let post = snapshot(&self.w);
+        self.bump("usec_in_tick_snapshot", t1.elapsed().as_micros() as u64);
 
         // ---- trace -> model inputs ----
         let pnode = t.subinvocations.iter().find(|s| s.to == STORAGE_POWER_ACTOR_ADDR);
@@ -925,7 +933,31 @@ impl<'a> Ctx<'a> {
             self.script.push(format!("tick@{} cbs={:?}{}", e, log, if inject.is_some() { format!(" inject={:?}", inject.map(|(k, c)| (k, c.value()))) } else { String::new() }));
         }
         let o = obs(&post, c, e + 1, &log);
-        self.steps.push((op, o));
+        self.real_steps += 1;
+        // run-length encoding of idle stretches: `(IdleRun n, obs after the first idle tick)` expands (in the
+        // case file's header) to n steps `(T0, obs with now and first_cron_epoch advanced by i)`; a tick joins
+        // the run only if its REAL observation is exactly that
+        let mut joined = false;
+        if idle {
+            if let Some((idx, n, first)) = &mut self.idle_run {
+                let bump = |x: &String, d: u64| (x.trim_matches(|c| c == '(' || c == ')').parse::<i64>().unwrap() + d as i64).to_string();
+                let mut expect = first.clone();
+                expect[1] = cf::z(bump(&first[1], *n).parse::<i64>().unwrap());
+                expect[2] = cf::z(bump(&first[2], *n).parse::<i64>().unwrap());
+                if expect == o {
+                    *n += 1;
+                    self.steps[*idx].0 = format!("IdleRun {}", n);
+                    joined = true;
+                }
+            }
+            if !joined {
+                self.steps.push(("IdleRun 1".to_string(), o.clone()));
+                self.idle_run = Some((self.steps.len() - 1, 1, o.clone()));
+            }
+        } else {
+            self.steps.push((format!("X ({})", op), o));
+            self.idle_run = None;
+        }
         for p in self.w.v.panics.borrow_mut().drain(..) { self.stats.panics.push(p); }
         self.snap = post.clone();
 
@@ -1059,7 +1091,7 @@ fn run_case(cfg: &Cfg, stats: &mut Stats, stop_at: Option<usize>) -> (Case, Vec<
     let pst: PowerState = get_state(&v, &STORAGE_POWER_ACTOR_ADDR).unwrap();
     let init = format!("init {} {} {}", cf::z(e0), cf::z(pst.first_cron_epoch), cf::z(budget));
     let w = W { v, accts, miners: vec![], padded, cache: Default::default() };
-    let mut cx = Ctx { w, r, cfg: cfg.clone(), stats, steps: vec![], fails: vec![], script: vec![], accepted_msg: false, pd_ok: false, extra: BTreeMap::new(), snap: Snap { first_cron: 0, miner_count: 0, claims: BTreeSet::new(), queue: BTreeMap::new(), miners: BTreeMap::new() }, kills: 0, e0, len: cfg.len };
+    let mut cx = Ctx { w, r, cfg: cfg.clone(), stats, steps: vec![], fails: vec![], script: vec![], accepted_msg: false, pd_ok: false, extra: BTreeMap::new(), snap: Snap { first_cron: 0, miner_count: 0, claims: BTreeSet::new(), queue: BTreeMap::new(), miners: BTreeMap::new() }, kills: 0, e0, len: cfg.len, idle_run: None, real_steps: 0 };
     cx.bump(if padded { "cases_padded" } else { "cases_unpadded" }, 1);
     if tweak { cx.bump("cases_policy_tweaked", 1); }
     cx.create_miner();
@@ -1115,6 +1147,8 @@ fn run_case(cfg: &Cfg, stats: &mut Stats, stop_at: Option<usize>) -> (Case, Vec<
         cx.tick(inject);
     }
     let nontrivial = cx.accepted_msg && cx.pd_ok;
+    let rs = cx.real_steps;
+    cx.bump("model_steps_compared", rs);
     let extra = cx.extra.clone();
     (Case { init, steps: cx.steps, nontrivial }, cx.fails, extra)
 }
@@ -1123,8 +1157,8 @@ fn main() {
     std::panic::set_hook(Box::new(|_| {}));
     let a = cf::parse_args();
     let mut stats = Stats::default();
-    let header = "From VF Require Import Model.Cron Base.Corr.\nFrom Coq Require Import ZArith List.\nImport ListNotations.\nOpen Scope Z_scope.\nDefinition T0 := Tick {| t_entry_fail := false; t_reward_fail := false; t_kpi_fail := false; t_market_fail := false; t_cbs := [] |}.\n";
-    let mut cw = CaseWriter::new(&a.out, header, "check_case", a.shards);
+    let header = "From VF Require Import Model.Cron Base.Corr.\nFrom Coq Require Import ZArith List.\nImport ListNotations.\nOpen Scope Z_scope.\nDefinition T0 := Tick {| t_entry_fail := false; t_reward_fail := false; t_kpi_fail := false; t_market_fail := false; t_cbs := [] |}.\n(* run-length encoding of idle stretches: n idle ticks whose observations differ only in the epoch *)\nInductive xop := X (o : op) | IdleRun (n : nat).\nDefinition bump (i : Z) (ob : list Z) : list Z := match ob with c :: n :: f :: r => c :: n + i :: f + i :: r | _ => ob end.\nDefinition expand (x : xop * list Z) : list (op * list Z) := match x with (X o, ob) => [(o, ob)] | (IdleRun n, ob) => map (fun i => (T0, bump (Z.of_nat i) ob)) (seq 0 n) end.\nDefinition check_case_rle (s : state) (l : list (xop * list Z)) := check_case s (flat_map expand l).\n";
+    let mut cw = CaseWriter::new(&a.out, header, "check_case_rle", a.shards);
     let mut all_fails: Vec<serde_json::Value> = vec![];
     let mut extra_total: BTreeMap<String, u64> = BTreeMap::new();
     let mut run = |cfg: &Cfg, stop: Option<usize>, cw: &mut CaseWriter, stats: &mut Stats| {
